@@ -136,15 +136,17 @@ package api
 //@   loop 0: invariant sdSync(self)
 //@   loop 0: invariant self.err == old(self.err) && self.r == old(self.r) && int(self.scanned) + self.scanp >= old(int(self.scanned) + self.scanp)
 //@   loop 0: invariant (base(self.buf) == old(base(self.buf)) || fresh(self.buf))
+//@   loop 0: invariant (base(self.buf) == pre(base(self.buf)) || newer(self.buf))
 //@   loop 0: modifies self.scanned, self.buf, self.scanp, self.buf[_], $rpos, self.err
 
 //@ func (*StreamDecoder).More props C17
 //@   requires sdReady(self)
 //@   modifies self.scanned, self.buf, self.scanp, self.buf[_], $rpos, self.err
-//@   ensures old(self.err) != nil ==> (!result && self.err == old(self.err))
+//@   ensures old(self.err) != nil ==> (!result && self.err == old(self.err) && same(self.buf, old(self.buf)) && self.scanned == old(self.scanned) && self.scanp == old(self.scanp) && $rpos == old($rpos))
 //@   ensures result ==> (sdReady(self) && self.err == nil && self.scanp < len(self.buf) && !isSpace(self.buf[self.scanp]) && self.buf[self.scanp] != ']' && self.buf[self.scanp] != '}')
 //@   ensures result ==> int(self.scanned) + self.scanp >= old(int(self.scanned) + self.scanp)
 //@   ensures result ==> (base(self.buf) == old(base(self.buf)) || fresh(self.buf))
+//@   ensures (!result && self.err == nil) ==> (sdReady(self) && self.scanp < len(self.buf) && (self.buf[self.scanp] == ']' || self.buf[self.scanp] == '}') && int(self.scanned) + self.scanp >= old(int(self.scanned) + self.scanp) && (base(self.buf) == old(base(self.buf)) || fresh(self.buf)))
 //@   ensures self.r == old(self.r)
 
 // readMore: appends at least one more non-space... byte run to the buffer (true) or records the Reader's error (false).
@@ -152,8 +154,32 @@ package api
 //@   requires sdReady(self)
 //@   modifies self.buf, self.scanp, self.buf[_], $rpos, self.err
 //@   ensures old(self.err) != nil ==> (!result && self.err == old(self.err))
-//@   ensures result ==> (sdReady(self) && self.err == nil && self.scanned == old(self.scanned) && len(self.buf) > old(len(self.buf)) && (base(self.buf) == old(base(self.buf)) || fresh(self.buf)))
+//@   ensures result ==> (sdReady(self) && self.err == nil && self.scanned == old(self.scanned) && len(self.buf) > old(len(self.buf)) && (base(self.buf) == old(base(self.buf)) || fresh(self.buf)) && $rpos - len(self.buf) == old($rpos - len(self.buf)))
 //@   ensures !result ==> self.err != nil
 //@   ensures self.r == old(self.r)
-//@   loop 0: invariant sdReady(self) && self.err == nil && self.r == old(self.r) && self.scanned == old(self.scanned) && len(self.buf) >= old(len(self.buf)) && err == nil && (base(self.buf) == old(base(self.buf)) || fresh(self.buf))
+//@   loop 0: invariant sdReady(self) && self.err == nil && self.r == old(self.r) && self.scanned == old(self.scanned) && len(self.buf) >= old(len(self.buf)) && err == nil && (base(self.buf) == old(base(self.buf)) || fresh(self.buf)) && $rpos - len(self.buf) == old($rpos - len(self.buf))
+//@   loop 0: invariant (base(self.buf) == pre(base(self.buf)) || newer(self.buf))
+//@   loop 0: modifies self.buf, self.scanp, self.buf[_], $rpos, self.err
+
+//@ func (*Decoder).Decode assumed "decoder core (generated code / optdec): effects on the destination value are not modelled; only the position is written"
+//@   requires self != nil
+//@   modifies self.i
+
+// Decode (C17): errors are sticky; the buffer stays in sync with the stream; a
+// successful Decode consumes input (InputOffset strictly increases).
+//@ func (*StreamDecoder).Decode props C17
+//@   requires sdReady(self)
+//@   modifies self.scanned, self.buf, self.scanp, self.buf[_], $rpos, self.err, self.Decoder
+//@   ensures old(self.err) != nil ==> (err == old(self.err) && self.err == old(self.err) && same(self.buf, old(self.buf)) && self.scanned == old(self.scanned) && self.scanp == old(self.scanp) && $rpos == old($rpos))
+//@   ensures err == self.err || (err != nil && self.err != nil)
+//@   ensures err == nil ==> sdOK(self)
+//@   ensures err == nil ==> sdSync(self)
+//@   ensures err == nil ==> int(self.scanned) + self.scanp > old(int(self.scanned) + self.scanp)
+//@   ensures err != nil ==> self.err != nil
+//@   loop 0: invariant sdOK(self) && self.r != nil && minLeftBufferShift == 1 && $rpos >= 0 && $rpos <= 4611686018427387904
+//@   loop 0: invariant sdSync(self)
+//@   loop 0: invariant self.err == nil && old(self.err) == nil && 0 <= s && s < len(self.buf) && int(self.scanned) + s >= old(int(self.scanned) + self.scanp)
+//@   loop 0: invariant !isSpace($rin[$rpos - len(self.buf) + s])
+//@   loop 0: invariant (base(self.buf) == old(base(self.buf)) || fresh(self.buf))
+//@   loop 0: invariant (base(self.buf) == pre(base(self.buf)) || newer(self.buf))
 //@   loop 0: modifies self.buf, self.scanp, self.buf[_], $rpos, self.err
